@@ -257,7 +257,9 @@ def cli(ctx):
             if rng.random() < 0.2:
                 flags.append("-U")
             if enc is not None and rng.random() < 0.3:
-                flags += ["-E", "none"]        # no transcoding, no mark stripping: the raw bytes, whatever the strategy
+                # no transcoding, no mark stripping: the raw bytes, whatever the strategy; raw UTF-16 is full of NUL
+                # bytes, and binary detection is outside this property (C14), so it is switched off with -a
+                flags += ["-E", "none", "-a"]
             pat = rng.choice(["a", "b", "ab", "x$", "^a", "a|b"])
             if "-U" in flags or (cjk and rng.random() < 0.7):
                 if "-U" not in flags:
